@@ -186,7 +186,67 @@ func c11MultiTree() fsmodel.Tree {
 	return multi
 }
 
+// judgeC11FsRoot: the view is rooted at the root of the file system (a tool exporting from "/" with a narrow include
+// list) and selects, by a plain path prefix, a scratch directory holding the tree: what the walk reports below that
+// prefix is the tree, and every file it reports can be opened through the view with its bytes.
+func judgeC11FsRoot(c c11Case) (string, string) {
+	root := scratch.Dir("fsroot")
+	defer scratch.Remove(root)
+	if err := fsmodel.Materialize(c.Tree, root); err != nil {
+		return "infra", err.Error()
+	}
+	abs, err := filepath.EvalSymlinks(root)
+	if err != nil {
+		return "infra", err.Error()
+	}
+	rel := strings.TrimPrefix(abs, "/")
+	base, err := fsutil.NewFS("/")
+	if err != nil {
+		return "infra", err.Error()
+	}
+	view, err := fsutil.NewFilterFS(base, &fsutil.FilterOpt{IncludePatterns: []string{rel}})
+	if err != nil {
+		return "view-failed", err.Error()
+	}
+	var got []string
+	err = view.Walk(context.Background(), "/", func(p string, e gofs.DirEntry, err error) error {
+		if err != nil {
+			return err
+		}
+		if strings.HasPrefix(p, rel+"/") {
+			got = append(got, strings.TrimPrefix(p, rel+"/"))
+		}
+		return nil
+	})
+	if err != nil {
+		return "walk-failed", err.Error()
+	}
+	want := c.Tree.Clone()
+	want.Sort()
+	if strings.Join(got, " ") != strings.Join(want.Paths(), " ") {
+		return "view-differs-from-reference", fmt.Sprintf("a view rooted at / with include %q reports %q below it, the directory holds %q", rel, got, want.Paths())
+	}
+	for _, n := range want {
+		if n.Kind != fsmodel.File {
+			continue
+		}
+		rc, err := view.Open(rel + "/" + n.Path)
+		if err != nil {
+			return "reported-file-cannot-be-opened", fmt.Sprintf("view rooted at /: %q is reported but Open fails: %v", rel+"/"+n.Path, err)
+		}
+		data, _ := io.ReadAll(rc)
+		rc.Close()
+		if !bytes.Equal(data, n.Data) {
+			return "open-wrong-bytes", fmt.Sprintf("view rooted at /: %q yields %d bytes, the file has %d", n.Path, len(data), len(n.Data))
+		}
+	}
+	return "", ""
+}
+
 func judgeC11Raw(c c11Case) (string, string) {
+	if c.Under == "fsroot" {
+		return judgeC11FsRoot(c)
+	}
 	root := scratch.Dir("view")
 	defer scratch.Remove(root)
 	srcDir, dst := filepath.Join(root, "src"), filepath.Join(root, "dst")
@@ -554,6 +614,10 @@ func runC11(r *evid.Run) {
 				}
 			}
 		}
+	}
+	// a view rooted at the root of the file system
+	for _, lab := range fsmodel.Partitions(4)[:3] {
+		cases = append(cases, c11Case{Tree: c11Tree(lab, false, fsmodel.File), Under: "fsroot"})
 	}
 	// a filter on top of a composite of three sub-roots: patterns (and the walk's pruning) that drop one of them
 	{
